@@ -11,6 +11,8 @@ CONSTANTS
     MaxLifecycle = 2
     Dedup = FALSE
     FailCleansUp = TRUE
+    MaxDeaths = 0
+    StopAtFirstError = FALSE
 INVARIANTS
     TypeOK
     ExactlyOnce
